@@ -95,6 +95,30 @@ func (u *Universe) AddRaw(parent int, b types.Block, label string) int {
 	return nd.ID
 }
 
+// Truncate drops every node with an index >= n (nodes added dynamically by a finished run), so that a
+// long-lived universe does not keep one reference ledger per block ever mined on it.
+func (u *Universe) Truncate(n int) {
+	if n >= len(u.Nodes) {
+		return
+	}
+	for _, nd := range u.Nodes[n:] {
+		delete(u.ByID, nd.Block.ID())
+	}
+	for _, nd := range u.Nodes[:n] {
+		kept := nd.Children[:0]
+		for _, c := range nd.Children {
+			if c < n {
+				kept = append(kept, c)
+			}
+		}
+		nd.Children = kept
+	}
+	for i := n; i < len(u.Nodes); i++ {
+		u.Nodes[i] = nil
+	}
+	u.Nodes = u.Nodes[:n]
+}
+
 // Add builds a block on a valid parent with the given transactions and attaches it.
 // salt distinguishes siblings (miner address and timestamp offset).
 func (u *Universe) Add(parent int, salt int, txns []types.Transaction, v2 []types.V2Transaction, label string) int {
